@@ -304,6 +304,10 @@ func (o *wsObserver) finish(pubs int, timeout time.Duration) []byte {
 }
 
 // ---- the two transports ----
+func wsSlack(nbytes int) time.Duration {
+	return 3*time.Second + time.Duration(nbytes/50000)*time.Second
+}
+
 func wsRunTCP(env *wsEnv, rng *rand.Rand, in []byte, replies int, beforeClose func()) ([]byte, error) {
 	c, err := net.Dial("tcp", env.tcpAddr)
 	if err != nil {
@@ -326,7 +330,7 @@ func wsRunTCP(env *wsEnv, rng *rand.Rand, in []byte, replies int, beforeClose fu
 	var out []byte
 	fr := wsFramer{}
 	buf := make([]byte, 8192)
-	_ = c.SetReadDeadline(time.Now().Add(3 * time.Second))
+	_ = c.SetReadDeadline(time.Now().Add(wsSlack(len(in))))
 	for fr.packets < replies {
 		n, err := c.Read(buf)
 		out = append(out, buf[:n]...)
@@ -344,10 +348,13 @@ type wsMsg struct {
 	pl  []byte
 }
 
-func wsRunWS(env *wsEnv, msgs []wsMsg, fragment bool, replies int, expectEnd bool, beforeClose func()) (out []wsMsg, ended bool, err error) {
-	d := websocket.Dialer{Subprotocols: []string{"mqtt"}, HandshakeTimeout: 2 * time.Second}
-	if fragment {
-		d.WriteBufferSize = 64 // long messages leave as several continuation frames
+// wbuf = the client's write buffer: a message longer than it leaves as continuation frames of that size
+// (0 = gorilla's default, 4096).
+func wsRunWS(env *wsEnv, msgs []wsMsg, wbuf int, replies int, expectEnd bool, beforeClose func()) (out []wsMsg, ended bool, err error) {
+	d := websocket.Dialer{Subprotocols: []string{"mqtt"}, HandshakeTimeout: 2 * time.Second, WriteBufferSize: wbuf}
+	total := 0
+	for _, m := range msgs {
+		total += len(m.pl)
 	}
 	c, _, err := d.Dial(env.wsURL, nil)
 	if err != nil {
@@ -376,14 +383,14 @@ func wsRunWS(env *wsEnv, msgs []wsMsg, fragment bool, replies int, expectEnd boo
 		case 9:
 			werr = c.WriteControl(websocket.PingMessage, m.pl, time.Now().Add(2*time.Second))
 		default:
-			_ = c.SetWriteDeadline(time.Now().Add(3 * time.Second))
+			_ = c.SetWriteDeadline(time.Now().Add(wsSlack(len(m.pl))))
 			werr = c.WriteMessage(m.typ, m.pl)
 		}
 		if werr != nil {
 			break // the broker has gone away; the reader goroutine reports it
 		}
 	}
-	dl := time.Now().Add(3 * time.Second)
+	dl := time.Now().Add(wsSlack(total))
 	for time.Now().Before(dl) {
 		mu.Lock()
 		got := fr.packets
@@ -488,6 +495,91 @@ func wsCase(env *wsEnv, rng *rand.Rand, idx int, mode int, withText bool) (sx.V,
 			msgs = append(msgs[:at:at], append([]wsMsg{txt}, msgs[at:]...)...)
 		}
 	}
+	wbuf := 0
+	if rng.Intn(3) == 0 {
+		wbuf = 64
+	}
+	return wsRunCase(env, rng, prefix, pks, msgs, withText, wbuf)
+}
+
+// wsBigSession: a session of at least `total` bytes — one PUBLISH with a payload of that size, or
+// many 1.5..2.5 KiB PUBLISH packets (and the odd PINGREQ) — so that a single websocket message can
+// carry more than 64 KiB of the MQTT stream.
+func wsBigSession(rng *rand.Rand, v byte, prefix string, total int, batched bool) []wsPkt {
+	props := []byte{}
+	if v == 5 {
+		props = []byte{0}
+	}
+	pks := []wsPkt{{b: wsConnect(v, "snd"+prefix), replies: 1}}
+	pid, size := 0, len(pks[0].b)
+	publish := func(q, n int) {
+		b := wsStr(fmt.Sprintf("c39/%s/%c", prefix, 'a'+rune(rng.Intn(3))))
+		replies := 0
+		if q > 0 {
+			pid++
+			b = append(b, byte(pid>>8), byte(pid))
+			replies = 1
+		}
+		b = append(b, props...)
+		pl := make([]byte, n)
+		rng.Read(pl)
+		p := wsPkt{b: wsMk(0x30|byte(q<<1), append(b, pl...)), replies: replies, publish: true}
+		pks = append(pks, p)
+		size += len(p.b)
+	}
+	if batched {
+		for size < total+64 {
+			if rng.Intn(10) == 0 {
+				pks = append(pks, wsPkt{b: []byte{0xc0, 0}, replies: 1})
+				size += 2
+			} else {
+				publish(rng.Intn(2), 1500+rng.Intn(1000))
+			}
+		}
+	} else {
+		publish(1, total)
+		publish(0, 40+rng.Intn(60))
+	}
+	pks = append(pks, wsPkt{b: []byte{0xc0, 0}, replies: 1})
+	return pks
+}
+
+// wsBigSegment: a few bytes first (or nothing), then ONE message of exactly `size` bytes, the rest
+// in pieces of up to 5000 bytes; whole = the entire stream as one message.
+func wsBigSegment(rng *rand.Rand, pks []wsPkt, size int, whole bool) []wsMsg {
+	var stream []byte
+	for _, p := range pks {
+		stream = append(stream, p.b...)
+	}
+	if whole || len(stream) < size {
+		return []wsMsg{{2, stream}}
+	}
+	var msgs []wsMsg
+	if k := rng.Intn(3) * (1 + rng.Intn(40)); k > 0 && len(stream) >= k+size {
+		msgs = append(msgs, wsMsg{2, stream[:k]})
+		stream = stream[k:]
+	}
+	msgs = append(msgs, wsMsg{2, stream[:size]})
+	rest := stream[size:]
+	for len(rest) > 0 {
+		n := 1 + rng.Intn(5000)
+		if n > len(rest) {
+			n = len(rest)
+		}
+		msgs = append(msgs, wsMsg{2, rest[:n]})
+		rest = rest[n:]
+	}
+	return msgs
+}
+
+func wsBigCase(env *wsEnv, rng *rand.Rand, idx int, size int, batched, whole bool, wbuf int) (sx.V, error) {
+	prefix := fmt.Sprintf("%05x", idx)
+	pks := wsBigSession(rng, byte(4+rng.Intn(2)), prefix, size, batched)
+	msgs := wsBigSegment(rng, pks, size, whole)
+	return wsRunCase(env, rng, prefix, pks, msgs, false, wbuf)
+}
+
+func wsRunCase(env *wsEnv, rng *rand.Rand, prefix string, pks []wsPkt, msgs []wsMsg, withText bool, wbuf int) (sx.V, error) {
 	var tcpIn []byte
 	for _, m := range msgs {
 		if m.typ == 1 {
@@ -498,6 +590,7 @@ func wsCase(env *wsEnv, rng *rand.Rand, idx int, mode int, withText bool) (sx.V,
 		}
 	}
 	replies, pubs := wsExpect(pks, len(tcpIn))
+	obsWait := wsSlack(len(tcpIn)) - time.Second
 
 	// reference run over TCP
 	obsT, err := wsObserve(env, prefix, "t")
@@ -505,7 +598,7 @@ func wsCase(env *wsEnv, rng *rand.Rand, idx int, mode int, withText bool) (sx.V,
 		return nil, err
 	}
 	var obsTCP, obsWS []byte
-	outTCP, err := wsRunTCP(env, rng, tcpIn, replies, func() { obsTCP = obsT.finish(pubs, 2*time.Second) })
+	outTCP, err := wsRunTCP(env, rng, tcpIn, replies, func() { obsTCP = obsT.finish(pubs, obsWait) })
 	if err != nil {
 		return nil, err
 	}
@@ -515,7 +608,7 @@ func wsCase(env *wsEnv, rng *rand.Rand, idx int, mode int, withText bool) (sx.V,
 	if err != nil {
 		return nil, err
 	}
-	outWS, ended, err := wsRunWS(env, msgs, rng.Intn(3) == 0, replies, withText, func() { obsWS = obsW.finish(pubs, 2*time.Second) })
+	outWS, ended, err := wsRunWS(env, msgs, wbuf, replies, withText, func() { obsWS = obsW.finish(pubs, obsWait) })
 	if err != nil {
 		return nil, err
 	}
@@ -552,8 +645,39 @@ func engWs(seed int64, tier string, _ []string, out *sx.Out) {
 			emit(mode, true)
 		}
 	}
+	// large websocket messages: sizes around 64 KiB and beyond, one big PUBLISH or many batched
+	// packets, unfragmented (write buffer larger than the message) or as continuation frames
+	big := func(size int, batched, whole bool, wbuf int) {
+		idx++
+		c, err := wsBigCase(env, rng, idx, size, batched, whole, wbuf)
+		if err != nil {
+			fmt.Fprintln(os.Stderr, "ws big case:", err)
+			os.Exit(3)
+		}
+		out.Case(c)
+	}
+	big(65535, false, false, 65535+1024)
+	big(65536, true, false, 0)
+	big(65537, false, false, 1000)
+	big(65537, true, false, 65537+1024)
+	big(131072, true, false, 70000)
+	big(200000, false, true, 0)
 	for i := 0; i < n; i++ {
 		mode := []int{0, 1, 2, 3, 3, 3, 4, 4, 4, 4, 5}[rng.Intn(11)]
 		emit(mode, mode != 5 && rng.Intn(5) == 0)
+	}
+	if tier == "thorough" {
+		sizes := []int{65535, 65536, 65537, 65536 + 4096, 131071, 131072, 131073, 1 << 20, 1<<20 + 1}
+		for i := 0; i < 45; i++ {
+			size := 60000 + rng.Intn(260000)
+			if i < 2*len(sizes) {
+				size = sizes[i%len(sizes)]
+			}
+			wbufs := []int{0, 1000, 4096, 70000, size + 1024, size + 1024}
+			if size <= 131073 {
+				wbufs = append(wbufs, 64)
+			}
+			big(size, rng.Intn(2) == 0, rng.Intn(4) == 0, wbufs[rng.Intn(len(wbufs))])
+		}
 	}
 }
